@@ -178,6 +178,23 @@ static void do_unpad(const unsigned char *pk, long len)
    if (ret < 0) printf("O %s\n", verr(ret)); else { printf("O OK %d ", ret); vhex(stdout, buf, ret); printf("\n"); }
    free(buf);
 }
+/* in place, whole buffer printed: ties the single-array model (OpusModel/RepackInPlace.lean), stale bytes included */
+static void do_unpadip(const unsigned char *pk, long len)
+{
+   unsigned char *buf = vexact(pk, len); int ret;
+   printf("I repack unpadip "); vhex(stdout, pk, len); printf("\n"); fflush(stdout);
+   ret = opus_packet_unpad(buf, (opus_int32)len);
+   if (ret < 0) printf("O %s\n", verr(ret)); else { printf("O OK %d ", ret); vhex(stdout, buf, len); printf("\n"); }
+   free(buf);
+}
+static void do_msunpadip(const unsigned char *pk, long len, int ns)
+{
+   unsigned char *buf = vexact(pk, len); int ret;
+   printf("I repack msunpadip "); vhex(stdout, pk, len); printf(" %d\n", ns); fflush(stdout);
+   ret = opus_multistream_packet_unpad(buf, (opus_int32)len, ns);
+   if (ret < 0) printf("O %s\n", verr(ret)); else { printf("O OK %d ", ret); vhex(stdout, buf, len); printf("\n"); }
+   free(buf);
+}
 static void do_mspad(const unsigned char *pk, long len, long newlen, int ns)
 {
    long cap = newlen > len ? newlen : len; unsigned char *buf = (unsigned char *)malloc(cap > 0 ? cap : 1); int ret;
@@ -276,10 +293,10 @@ static void padcase(vrng *r)
          do_padimpl(pk, n, vchance(r, 70) ? n + vrange(r, 1, 400) : n + vrange(r, 1, 12), vbelow(r, 2), e, ne); }
    } else if (t < 7) {
       n = gen_packet(r, 0, pick_cfg(r), 48, pk); if (vchance(r, 12)) n = mutate(r, pk, n);
-      do_unpad(pk, n);
+      do_unpad(pk, n); do_unpadip(pk, n);
    } else if (t < 9) {
       int ns = vrange(r, 1, 8), ns2; n = gen_ms(r, pk, ns, !vchance(r, 12)); ns2 = vchance(r, 90) ? ns : vrange(r, 0, 9);
-      do_msunpad(pk, n, ns2);
+      do_msunpad(pk, n, ns2); if (ns2 >= 0 && n > 0) do_msunpadip(pk, n, ns2);
    } else {
       int ns = vrange(r, 1, 8), ns2; n = gen_ms(r, pk, ns, !vchance(r, 12)); ns2 = vchance(r, 90) ? ns : vrange(r, 0, 9);
       { int k = vbelow(r, 8); nl = k == 0 ? n : k == 1 ? n - 1 : k == 2 ? n + 1 : k == 3 ? n + 2 : k < 6 ? n + vrange(r, 1, 20) : n + vrange(r, 250, 700); }
@@ -756,6 +773,8 @@ int main(int argc, char **argv)
             n = vunhex(h, buf, sizeof buf); sp = strchr(h, ' ');
             if (!strcmp(opn, "pad")) { if (sp) a = atol(sp + 1); if (judge) judge_pad(buf, n, a, 1, NULL); else do_pad(buf, n, a); }
             else if (!strcmp(opn, "unpad")) { if (judge) judge_unpad(buf, n, NULL); else do_unpad(buf, n); }
+            else if (!strcmp(opn, "unpadip")) { if (judge) judge_unpad(buf, n, NULL); else do_unpadip(buf, n); }
+            else if (!strcmp(opn, "msunpadip")) { if (sp) b = atoi(sp + 1); if (judge) judge_ms(buf, n, n, b, 0, NULL); else do_msunpadip(buf, n, b); }
             else if (!strcmp(opn, "mspad")) { if (sp) sscanf(sp + 1, "%ld %d", &a, &b); if (judge) judge_ms(buf, n, a, b, 1, NULL); else do_mspad(buf, n, a, b); }
             else if (!strcmp(opn, "msunpad")) { if (sp) b = atoi(sp + 1); if (judge) judge_ms(buf, n, n, b, 0, NULL); else do_msunpad(buf, n, b); }
             else if (judge) continue;
